@@ -12,6 +12,7 @@ mutual
 /-- `t.Accept(visitor)` where `vs` is the visitor's VisitSymbol and `st` its state -/
 def accept {σ : Type} (T : Table) (vs : σ → Bytes → σ) : Tree → σ → σ
   | .nil, st => st
+  | .tnil _, st => st
   | .node k strs kids, st =>
     match T.lookup k with
     | none => st
@@ -35,6 +36,7 @@ mutual
 theorem accept_eq_foldl {σ : Type} (T : Table) (vs : σ → Bytes → σ) :
     ∀ (t : Tree) (st : σ), accept T vs t st = (visit T t).foldl vs st
   | .nil, st => by simp [accept, visit]
+  | .tnil _, st => by simp [accept, visit]
   | .node k strs kids, st => by
     rw [accept, visit]
     cases T.lookup k with
